@@ -413,6 +413,115 @@ def rule_R7(ctx, tabs):
 WIDTH = {"u8": 8, "u16": 16, "u32": 32, "u64": 64, "usize": 64, "u128": 128, "i8": 8, "i16": 16, "i32": 32, "i64": 64, "isize": 64, "i128": 128}
 
 
+def _nf(t):
+    """normal form of a compared quantity in a distance function"""
+    t = T.strip(t)
+    while t[0] == "cast":
+        t = T.strip(t[2])
+    if t[0] == "field":
+        base = T.strip(t[1])
+        if base[0] == "downcast":
+            who = T.strip(base[1])
+            while who[0] in ("deref", "ref"):
+                who = T.strip(who[1] if who[0] == "deref" else who[2])
+            if who[0] == "param":
+                nm = {"self": "obs", "other": "sig"}.get(who[2], who[2])
+                if base[2] == "Some":
+                    return nm
+                return "%s.%s.%s" % (nm, base[2], t[2])
+            if who[0] == "call":
+                # payload of checked_xxx(..) matched as Some
+                return _nf(who)
+        if base[0] == "binop":
+            return _nf(base)
+    if t[0] == "call" and len(t[2]) == 2:
+        last = t[1].rsplit("::", 1)[-1]
+        fam = {"saturating_add": "add", "checked_add": "add", "wrapping_add": "add", "saturating_sub": "sub", "checked_sub": "sub", "wrapping_sub": "sub",
+               "checked_div": "div", "saturating_div": "div", "wrapping_div": "div", "saturating_mul": "mul", "checked_mul": "mul", "checked_rem": "rem"}.get(last)
+        if fam:
+            a, c = _nf(t[2][0]), _nf(t[2][1])
+            if fam in ("add", "mul"):
+                a, c = sorted((a, c))
+            return "%s(%s,%s)" % (fam, a, c)
+    if t[0] == "binop":
+        op = t[1].replace("WithOverflow", "").replace("Unchecked", "")
+        fam = {"Add": "add", "Sub": "sub", "Div": "div", "Mul": "mul", "Rem": "rem"}.get(op)
+        if fam:
+            a, c = _nf(t[2]), _nf(t[3])
+            if fam in ("add", "mul"):
+                a, c = sorted((a, c))
+            return "%s(%s,%s)" % (fam, a, c)
+    if t[0] == "param":
+        return {"self": "obs", "other": "sig"}.get(t[2], t[2])
+    k = T.fold_int(t)
+    if k is not None:
+        return str(k)
+    return "?" + T.pp(t)[:40]
+
+
+def rule_R10(ctx):
+    """R10: exact-match relations of the form-pair distance functions: for every (observed form, signature form) arm, distance 0 is
+    returned under exactly the equations of tables/spec_tables.json (`obs TTL + hops = initial TTL`, `window / mss = multiplier`, ...).
+    Operands, operand order of non-commutative operations and the set of equations are compared in a normal form that ignores
+    saturating/checked/plain spelling and the side an equation is written on."""
+    import json
+    import os
+    from ..engine.facts import VERIF
+    with open(os.path.join(VERIF, "tables", "spec_tables.json")) as fh:
+        spec = json.load(fh)["distance_equations"]
+    P = ctx.program
+    for fn, table in spec.items():
+        if fn.startswith("_"):
+            continue
+        b = P.method1(fn.split("::")[0], fn.split("::")[1])
+        S = T.Slicer(b, P)
+        seen = set()
+        for (rb, j, term, _c) in TB.return_sites(b, P):
+            tt = T.strip(term)
+            if not (tt[0] == "agg" and tt[3] == "Some"):
+                continue
+            sc = [x for x in T.walk(tt) if x[0] == "agg" and x[3] in ("High", "Medium", "Low", "Bad")]
+            if not sc or sc[0][3] != "High":
+                continue
+            conds = Q.canon_conds(P, T.dom_conds(b, S, rb))
+            forms = {}
+            for c in conds:
+                if c[0] == "variant" and c[3] is True and T.strip(c[1])[0] in ("param", "deref", "ref"):
+                    who = T.strip(c[1])
+                    while who[0] in ("deref", "ref"):
+                        who = T.strip(who[1] if who[0] == "deref" else who[2])
+                    if who[0] == "param" and who[2] in ("self", "other"):
+                        forms[who[2]] = c[2]
+            arm = "%s/%s" % (forms.get("self", "*"), forms.get("other", "*"))
+            eqs = sorted("eq(%s)" % ",".join(sorted((_nf(c[2]), _nf(c[3])))) for c in conds if c[0] == "cmp" and c[1] == "Eq" and c[4] is True)
+            neg = [c for c in conds if c[0] == "cmp" and not (c[1] == "Eq" and c[4] is True)]
+            want = table.get(arm)
+            seen.add(arm)
+            if want is None:
+                ctx.fail("R10", "%s:%s" % (fn, arm), "an exact match (distance 0) is granted for the form pair %s under %s, which the specification table does not list" % (arm, eqs), ctx.loc(b, rb))
+                continue
+            wn = sorted("eq(%s)" % ",".join(sorted(e[3:-1].split(",", 1) if e.count("(") == 1 else _split_top(e[3:-1]))) for e in want)
+            ctx.check(eqs == wn and not neg, "R10", "%s:%s" % (fn, arm), "distance 0 iff %s" % (" and ".join(wn) or "always"),
+                      "for (%s) the exact-match relation is %s%s, the signature semantics say %s: observations the signature does not describe are accepted as exact (or "
+                      "conforming ones rejected)" % (arm, eqs, " plus %d other comparisons" % len(neg) if neg else "", wn), ctx.loc(b, rb))
+        missing = sorted(set(table) - seen)
+        ctx.check(not missing, "R10", fn + ":arms", "all %d form pairs of the table have an exact-match arm" % len(table),
+                  "form pairs without an exact-match arm: %s" % missing, ctx.loc(b))
+
+
+def _split_top(s):
+    """split `a,b` at the top-level comma"""
+    depth = 0
+    for i, ch in enumerate(s):
+        if ch == "(":
+            depth += 1
+        elif ch == ")":
+            depth -= 1
+        elif ch == "," and depth == 0:
+            return [s[:i], s[i + 1:]]
+    return [s]
+
+
 def rule_R9(ctx):
     """R9: header-list comparison charges a signature header only when it is not optional (`?name`): every error increment inside
     a loop that walks signature entries is guarded by `!optional`; headers left over on the observed side are always charged"""
@@ -490,6 +599,7 @@ def rule_R8(ctx):
 
 
 def run(ctx):
+    rule_R10(ctx)
     rule_R8(ctx)
     rule_R9(ctx)
     tabs = _score_tables(ctx)
